@@ -42,8 +42,10 @@ def run(idx, rep, tier):
         if algs == ["Auto"]:
             continue
         rets = [r for r in df.returns(fi.node) if r.value is not None]
-        if algs in (["Eigh"], ["Eig"]):
-            dense_path(idx, rep, te, rule, rets, algs[0])
+        if algs and set(algs) <= {"Eigh", "Eig"}:
+            # which dense decomposition does the body use?  (a rule typed Eig | Eigh that runs the general solver is an Eig path)
+            uses_eigh = any(df.is_xnp_call(c) == "eigh" for c in df.calls(fi.node))
+            dense_path(idx, rep, te, rule, rets, "Eigh" if uses_eigh else "Eig")
             continue
         if algs in (["Lanczos"], ["Arnoldi"]):
             krylov_ctor(idx, rep, rule, rets)
